@@ -5,13 +5,13 @@ P = 5
 #                     menu aday dday startup daily compress
 JOBS = [
     step(P, 'size',          0, 0, 0, 0, 0, 0),
-    step(P, 'daily',         2, 1, 1, 0, 1, 0),
+    step(P, 'daily',         2, 1, 1, 0, 1, 0, extra={'VF_ACTIVE_FIXED': 1}),
     step(P, 'startup_gz',    0, 0, 0, 1, 0, 1, timeout=3000, mem=28, tiers=('thorough',)),
-    step(P, 'gz_9_10',       5, 0, 0, 1, 0, 1, timeout=3000, mem=28),
+    step(P, 'gz_9_10',       5, 0, 0, 1, 0, 1, timeout=3600, mem=28, tiers=('thorough',)),      # about 25 min (compression: CRC table and loops)
     step(P, 'gzmenu_daily',  3, 1, 1, 0, 1, 0, tiers=('thorough',), timeout=3000, mem=28),
     step(P, 'all_on',        2, 1, 1, 1, 1, 1, tiers=('thorough',), timeout=3600, mem=32),
     step(P, 'size_2writes',  0, 0, 0, 0, 0, 0, ops=2, tiers=('thorough',), timeout=5400, mem=40),
-    step(P, 'daily_2writes', 2, 1, 2, 0, 1, 0, ops=2, tiers=('thorough',), timeout=5400, mem=40),
+    step(P, 'daily_2writes', 2, 1, 2, 0, 1, 0, extra={'VF_ACTIVE_FIXED': 1}, ops=2, tiers=('thorough',), timeout=5400, mem=40),
 ]
-BOUNDS = {'quick': bounds('size rotation; daily rotation across a day change; startup rotation with compression on {.1,.2} and on compressed {.9.gz,.10.gz} (one write each)'),
-          'thorough': bounds('plus a pre-existing compressed rotated file, all options on, and two writes')}
+BOUNDS = {'quick': bounds('size rotation; daily rotation across a day change; (one write each; compression is decided by the thorough jobs and by C08)'),
+          'thorough': bounds('plus startup rotation with compression on {.1,.2} and on compressed {.9.gz,.10.gz}, a pre-existing compressed rotated file, all options on, and two writes')}
